@@ -185,7 +185,7 @@ def resp_packet(records):
 
 
 def run_case(case):
-    from zeroconf import DNSIncoming, DNSPointer, DNSQuestionType, ServiceListener, const
+    from zeroconf import DNSIncoming, DNSPointer, DNSQuestion, DNSQuestionType, ServiceListener, const
     import zeroconf._services.browser as B
     from zeroconf.asyncio import AsyncServiceBrowser
 
@@ -244,6 +244,10 @@ def run_case(case):
                     _, _, alias, ty, ttl = act
                     pkt = resp_packet([DNSPointer(ty, const._TYPE_PTR, const._CLASS_IN, ttl, alias)])
                     zc.record_manager.async_updates_from_response(DNSIncoming(pkt, now=now))
+                elif a == "heard":
+                    # another host asked the same PTR question just now (QM, no known answers): what QueryHandler records for a question
+                    # this instance can answer.  QU questions of the browser must go out regardless; only QM ones may be suppressed
+                    zc.question_history.add_question_at_time(DNSQuestion(act[2], const._TYPE_PTR, const._CLASS_IN), now, set())
                 elif a == "cancel":
                     await br.async_cancel()
                     br = None
@@ -355,6 +359,9 @@ def oracle(case, obs):
                 want_qu = (case["qtype"] == "QU") or (case["qtype"] is None and i == 0)
                 if any(b != want_qu for b in qu):
                     bad.append(("C10:startup-qu", "start-up query %d has QU bits %s (forced type %s)" % (i, qu, case["qtype"])))
+        n_start = sum(1 for t in qt if t <= t_start + 120 + 14000)
+        if len(expect) == 4 and n_start != 4:
+            bad.append(("C10:startup-count", "%d queries on the wire during the start-up phase (four expected: at d, +1 s, +5 s, +14 s)" % n_start))
     # ---- rate limit after the four start-up queries
     for a, b in zip(qt[3:], qt[4:]):
         if b - a < delay:
@@ -521,6 +528,15 @@ def gen_browser_case(rng, i):
             script.append([t3, "rec", rng.choice([alias, alias.swapcase()]), ty, ttl])
             exp = max(exp, t3 + 1000 * T)
         maxexp = max(maxexp, exp)
+    # another asker on the link: its question is in our history (a) right before the first start-up query (QU unless QM is forced),
+    # (b) for a browser forced to QU, half a second before the 75% instant of records left to expire.  QU questions are never held back.
+    if qtype != "QM" and rng.random() < 0.35:
+        for ty in types:
+            script.append([0, "heard", ty])
+    if qtype == "QU" and rng.random() < 0.6:
+        for act in list(script):
+            if act[1] == "rec" and act[4] != 0:
+                script.append([act[0] + 750 * max(act[4], 1125) - 500, "heard", act[3]])
     warm = []
     if rng.random() < 0.3:
         for k in range(rng.randint(1, 2)):
